@@ -949,6 +949,23 @@ Example C08_fixed_modes_fraction_as_coded_ex :
   Qle (Qabs.Qabs (tucker_residual_fm [24; 10; 10] [(0, 24)] [10; 10] (1 # 2)%Q (5637 # 10000)%Q)) (1 # 2)%Q /\
   Qeq (tucker_params [24; 10; 10] (map n2q [24; 5; 5])) 1276%Q /\ Qeq (Qmult (1 # 2)%Q (n2q (prod [24; 10; 10]))) 1200%Q.
 Proof. vm_compute. repeat split; discriminate. Qed.
+(* TT of order >= 3 with proportional ranks (constant_rank = False): at the rational ranks (1, c a_1, ..., c a_N-1, 1), a_k the averaged neighbouring
+   sizes, the parameter count minus the requested q * prod(shape) IS the quadratic whose root the code takes -- for every c (induction over the
+   cores; the rounding to integers is C08_round_half_even_spec / C08_qround_floor_ceil_spec).  For a matrix (order 2) the code solves a DIFFERENT
+   equation (a = a_1^2 I_1) and warns about the 'trivial case': the Example shows the two differ *)
+Theorem C08_tt_fraction_identity : forall shape q c, 3 <= length shape ->
+  (tt_params shape (1%Q :: scaled c (avg_dims shape) ++ [1%Q]) - q * n2q (prod shape) == tt_residual (tt_quadratic shape q) c)%Q.
+Proof. exact tt_fraction_identity. Qed.
+Print Assumptions C08_tt_fraction_identity.
+(* constant_rank = True (ranks (1, r, ..., r, 1); the code rejects fractions for order <= 2): count minus request IS the constant-rank quadratic *)
+Theorem C08_tt_fraction_identity_const : forall shape q r, 2 <= length shape ->
+  (tt_params shape (1%Q :: repeat r (length shape - 1) ++ [1%Q]) - q * n2q (prod shape) == tt_residual (tt_quadratic_const shape q) r)%Q.
+Proof. exact tt_fraction_identity_const. Qed.
+Print Assumptions C08_tt_fraction_identity_const.
+Example C08_tt_order2_equation_differs_ex :
+  Qeq (Qminus (tt_params [4; 6] (1%Q :: scaled (1 # 5)%Q (avg_dims [4; 6]) ++ [1%Q])) (Qmult (1 # 2)%Q (n2q (prod [4; 6])))) (-2 # 1)%Q /\
+  Qeq (tt_residual (tt_quadratic [4; 6] (1 # 2)%Q) (1 # 5)%Q) (2 # 1)%Q.
+Proof. vm_compute. split; reflexivity. Qed.
 (* CP: the rank chosen for a fraction q >= 0 reproduces q * prod(shape) parameters to within one rank-one term (sum(shape) parameters): 'floor'
    never exceeds the request and one more term would, 'ceil' reaches it and one term less would not, 'round' is within half a term *)
 Theorem C08_validate_cp_rank_fraction : forall shape q rd r, (0 <= q)%Q -> validate_cp_rank shape (RFrac q) rd = Ok r ->
@@ -982,7 +999,7 @@ Example C08_validate_tr_rank_fraction_ex : validate_tr_rank [3; 4; 5] (RFrac 1) 
 Proof. vm_compute. split; reflexivity. Qed.
 
 (* ================================================================== round 7: the SVD contract of the HOOI theorems discharged from LAPACK's contract *)
-From TLV Require Import Base.Ops Model.Svd Proofs.SvdProofs Proofs.SvdWitness Proofs.StructureSvdBridge.
+From TLV Require Import Base.Ops Model.Svd Proofs.SvdProofs Proofs.SvdWitness Proofs.SvdSymeigFull Proofs.StructureSvdBridge.
 Local Open Scope nat_scope.
 (* (read-only import of C05's model of svd_interface / truncated_svd and of its theorem interface_truncated_e2e_gen.)  One call
    svd_interface(M, n_eigenvecs = r, method = 'truncated_svd', flip_sign = flip) on a d1 x d2 matrix, through C05's model of the clamping, the
@@ -1014,6 +1031,33 @@ Print Assumptions C08_hooi_lapack_canonical.
 (* non-vacuity: LAPACK's contract is satisfiable on the matrices of a run (C05's witness, the 2 x 1 matrix (2, 0)^T with its two LAPACK answers) *)
 Example C08_hooi_lapack_hyps_ex : forall i (X : tens R) f, i < length [2] -> svd_contract (nth i [2] 0) 1 (mget Rops Mtall) f (orc_tall Mtall f).
 Proof. exact bridge_hyps_ex. Qed.
+
+(* method = 'symeig_svd' (eigh of the Gram matrix; C05's theorem interface_symeig_e2e): one call returns a U with min(r, d1) orthonormal columns when
+   the symmetric eigensolver's answer on the Gram matrix the code builds meets its contract (W orthogonal, G W = W diag(lam)) and the kept
+   eigenvalues exceed the clip (symeig_call_ok: exactly the hypotheses of C05's theorem; rank-deficient input is a documented limitation) *)
+Theorem C08_svd_interface_symeig_unitary : forall (eigh : list (list R) -> list R * list (list R)) (epsd : R) (flip ub : bool) (d1 d2 r : nat) (M : list (list R)),
+  symeig_call_ok eigh epsd d1 d2 r M ->
+  unitary_cols R 0%R 1%R Rplus Rmult (fun x => x) d1 (Nat.min r d1) (svd_interface_symeig_U eigh epsd flip ub d1 d2 r M).
+Proof. exact svd_interface_symeig_U_unitary. Qed.
+Print Assumptions C08_svd_interface_symeig_unitary.
+(* HOOI whose SVD calls go through method = 'symeig_svd': orthonormal factors with min(rank_i, I_i) columns, core = projection onto the returned
+   factors (in the present code only the initialisation of tucker / partial_tucker honours svd=...; the sweep uses the default method) *)
+Theorem C08_hooi_symeig_canonical : forall shape ranks : list nat, length ranks = length shape ->
+  forall (eigh : list (list R) -> list R * list (list R)) (epsd : R) (flip ub : bool)
+         (unf0 : nat -> tens R -> list (list R)) (cols0 : nat -> tens R -> nat)
+         (unfU : nat -> tens R -> list (nat -> nat -> R) -> list (list R)) (colsU : nat -> tens R -> list (nat -> nat -> R) -> nat),
+  (forall i X, i < length shape -> symeig_call_ok eigh epsd (nth i shape 0) (cols0 i X) (nth i ranks 0) (unf0 i X)) ->
+  (forall i X fs, i < length shape -> symeig_call_ok eigh epsd (nth i shape 0) (colsU i X fs) (nth i ranks 0) (unfU i X fs)) ->
+  forall (imp : tens R -> tens R -> list (nat -> nat -> R) -> tens R) ik mask tol_set n decisions X G0 fs0,
+  ik = InitSvd \/ (0 < n /\ length fs0 = length shape) ->
+  let '(X', G', fs') := hooi_K R 0%R 1%R Rplus Rmult (fun x => x) shape (ssvd0 shape ranks eigh epsd flip ub unf0 cols0) (ssvdU shape ranks eigh epsd flip ub unfU colsU)
+                                imp ik mask tol_set n decisions X G0 fs0 in
+  unitary_all R 0%R 1%R Rplus Rmult (fun x => x) shape (clipped shape ranks) fs' /\
+  (forall jdx, G' jdx = tproj R 0%R 1%R Rplus Rmult (fun x => x) shape fs' X' jdx) /\ (mask = false -> X' = X).
+Proof. exact hooi_symeig_canonical. Qed.
+Print Assumptions C08_hooi_symeig_canonical.
+Example C08_symeig_call_ok_ex : symeig_call_ok (fun _ => ([4%R], [[1%R]])) 1%R 1 1 1 [[2%R]].
+Proof. exact symeig_call_ok_ex. Qed.
 
 (* ================================================================== round 7: the initial CP weights (initialize_cp as a set of paths) *)
 (* the clause "otherwise the CP weights are all ones" needs the INITIAL weights to be ones (C08_wprog_unit_weights starts from them): for every
